@@ -55,10 +55,28 @@ def handleGrid (toks0 : List String) : Option String := do
   let (toks, tail) ← if b = "Svm" && via = "setters" then svmSetterToks toks0 else some (toks0, "")
   -- `rebuild=<setter>[:after|:before]`: a setter that does not assign a guarded field was applied after / before the
   -- value setters of the request; the model applies its rebuild function to the decoded point
-  let chk ← match arg toks0 "rebuild" with
-    | none => Gen.C04.checkByName b toks
-    | some variant => Ranges.checkRebuilt b variant toks
-  let (inr, fin) ← Ranges.rangeByName b toks
+  -- `b=CountVectorizer sets=<call chain>`: the request carries only the setter calls; the parameters are what the setter
+  -- model (`cvRun`; through the wrapper's `tfidfSet` for the TfIdfVectorizer entry points) leaves in the builder
+  let cvChain := b = "CountVectorizer" && (arg toks0 "sets").isSome
+  let (chk, inr, fin, tail) ←
+    if cvChain then do
+      let p ← Ranges.cvOfChain (via.startsWith "wrap") toks0
+      some (Gen.C04.CountVectorizer.check p, decide (Ranges.CountVectorizer.InRange p), decide (Ranges.CountVectorizer.Finite p),
+        s!" ng={p.n_gram_range.1},{p.n_gram_range.2} rok={if p.split_regex_ok then 1 else 0}")
+    else do
+      let chk ← match arg toks0 "rebuild" with
+        | none => Gen.C04.checkByName b toks
+        | some variant => Ranges.checkRebuilt b variant toks
+      let (inr, fin) ← Ranges.rangeByName b toks
+      some (chk, inr, fin, tail)
+  -- `b=ElasticNet … max_iterations=<n>`: the full documented range (`DocRange`: the parameter table also bounds a field
+  -- no guard reads) on the request's own `max_iterations`
+  let tail ← match (if b = "ElasticNet" then arg toks0 "max_iterations" else none) with
+    | none => some tail
+    | some s => do
+      let mi ← parseNat s
+      let p ← Gen.C04.ElasticNet.parse toks
+      some (tail ++ s!" docrange={if decide (Ranges.ElasticNet.DocRange p mi) then 1 else 0}")
   -- trait level: the parameter point is a token (`()`): the decision depends on the guard only
   let guard : Unit → Except String Unit := fun _ => chk
   let r := checkRef guard ()
